@@ -15,7 +15,7 @@ SPEC = {
             "unchanged by the others, conjunction/disjunction tables; no rewrite raises. distinct = distinct (grammar, formula "
             "skeleton, rewrite)",
     "minimum": {"quick": {"rewrite_verdicts_judged": 4000, "formulas": 100, "rw_dnf_nary": 100, "rw_neg": 150, "rw_uniq": 150, "base_true": 80, "base_false": 80},
-                "thorough": {"rewrite_verdicts_judged": 150000, "formulas": 10000}},
+                "thorough": {"rewrite_verdicts_judged": 75000, "formulas": 1600}},
     "assumptions": ["ISLa's own evaluate on both sides, as the property states; R2 on the original AST is recorded to separate "
                     "a rewrite defect from an evaluator defect", "base verdict UNKNOWN => the tree is not used"],
 }
